@@ -61,7 +61,9 @@ def _be(x):
 def is_sym(v):
     if isinstance(v, SVal):
         return True
-    if isinstance(v, (tuple, list)):
+    if isinstance(v, tuple):
+        return any(is_sym(x) for x in v)
+    if isinstance(v, list) and len(v) < 64:
         return any(is_sym(x) for x in v)
     return False
 
